@@ -383,6 +383,7 @@ def run(ctx):
     from cincoconfig.encryption import KeyFile
     res = Result()
     guard(res, "C19", extension_roundtrip_stream, ctx, res)
+    guard(res, "C19", lambda: __import__("extstreams").include_and_blank_roundtrip_stream(ctx, res, "C19"))
     rng = ctx.rng
     tmp = ctx.tmpdir()
     reqs, pend = [], []
